@@ -137,10 +137,12 @@ PROPS.update({
         level_note=COMMON_NOTE,
         ),
     "C18": dict(
-        streams=[dict(cmd="C18", oracle_only=True)],
-        technique="Lean 4 theorem (logical state independent of the target, every history) + exhaustive fault-index enumeration per history on the real crate",
-        level_text="Logical state is proved independent of whatever the terminal does; for generated histories every fault index (once and sticky) is run on the real crate "
-                   "with catch_unwind per call, comparing getters with a fault-free twin.",
+        streams=[dict(cmd="C18", oracle_only=True), dict(cmd="C18F")],
+        technique="Lean 4 relational proof over a fault-plan model of the MultiProgress (any two fault plans, every history: same logical state, membership, order, panics; errors reported) + fault-injected correspondence + exhaustive fault-index enumeration per history on the real crate",
+        level_text="The MultiProgress operations with every terminal call subject to a fault plan (k-th call fails, optionally all later ones) are modelled; for every history and every pair of "
+                   "plans the two runs are proved to agree on every bar's logical state, on membership and order and on panics, println/clear are proved to report exactly whether a call failed, "
+                   "and the pinned unwrap in suspend is proved to panic. The model's per-call outcomes and call counts equal the fault-injected crate's on sampled plans; for generated histories "
+                   "every fault index (once and sticky, five error kinds) is run on the real crate with catch_unwind per call, comparing getters with a fault-free twin.",
         level_note=COMMON_NOTE,
         ),
     "C19": dict(
